@@ -9,7 +9,7 @@
    the 2^-50 bound off the fast path and the build without fast-float-parsing
    are decided by the correspondence and the oracle only (theorems.json). *)
 From Coq Require Import ZArith Reals SpecFloat.
-From Flocq Require Import Core BinarySingleNaN PrimFloat.
+From Flocq Require Import Core BinarySingleNaN.
 Require Import Base Value Float PrintOptions Printer ParseOptions Utf8 Reader Scan Num NumberOps Parser.
 Require Import ReaderProofs TokenProofs NumTokenProofs ClingerProofs.
 Local Open Scope N_scope.
@@ -64,10 +64,10 @@ Print Assumptions C05_printed_negint_reads_back.
 (* the Clinger fast path is correctly rounded *)
 Theorem C05_fast_path_correctly_rounded : forall std_parse pos sig e r,
   (Z.of_N sig < 2 ^ 53)%Z -> (Z.abs e <= 22)%Z ->
-  exists b : binary_float FloatOps.prec FloatOps.emax,
+  exists b : binary_float 53 1024,
     f64_from_parts true std_parse pos sig e r = (Ok (if pos then B2SF b else f64_neg (B2SF b)), r) /\
     is_finite b = true /\
-    B2R b = round radix2 (SpecFloat.fexp FloatOps.prec FloatOps.emax) ZnearestE (dec_value sig e).
+    B2R b = round radix2 (SpecFloat.fexp 53 1024) ZnearestE (dec_value sig e).
 Proof. exact from_parts_fast. Qed.
 Print Assumptions C05_fast_path_correctly_rounded.
 
